@@ -299,6 +299,10 @@ def setup(config):
     from beyond.config import config as bc
 
     bc.update({"eop": {"missing_policy": "pass"}})
+    import logging
+
+    # the re-registration operations make the library log "A frame with the name ... is already registered" each time
+    logging.getLogger("beyond.frames.frames").setLevel(logging.ERROR)
 
 
 def run_unit(p, t):
